@@ -488,7 +488,7 @@ func (w *World) dependsOnRecursive(pd *PureDef, seen map[string]bool) bool {
 }
 
 // eventSorts gives the static argument/result sorts of an event kind.
-func (w *World) eventSorts(name string) ([]string, []string, bool) {
+func (w *World) eventSorts(name string, from *ssa.Function) ([]string, []string, bool) {
 	conv := w.spkgs["transpiler"]
 	evSort := func(t types.Type) string {
 		switch t.Underlying().(type) {
@@ -532,8 +532,35 @@ func (w *World) eventSorts(name string) ([]string, []string, bool) {
 			}
 		}
 	}
+	// a function-typed parameter of the function under verification
+	if from != nil {
+		for _, p := range from.Params {
+			if sig, ok := p.Type().Underlying().(*types.Signature); ok && p.Name() == name {
+				var as, rs []string
+				for j := 0; j < sig.Params().Len(); j++ {
+					as = append(as, evSort(sig.Params().At(j).Type()))
+				}
+				for j := 0; j < sig.Results().Len(); j++ {
+					rs = append(rs, evSort(sig.Results().At(j).Type()))
+				}
+				return as, rs, true
+			}
+		}
+	}
+	var cands []*ssa.Function
 	for _, fn := range w.allRepoFuncs() {
-		if fn.Name() == name && w.contracts[funcKey(fn)] != nil {
+		if fn.Name() == name {
+			cands = append(cands, fn)
+		}
+	}
+	// prefer the package of the function under verification
+	sort.SliceStable(cands, func(i, j int) bool {
+		pi := from != nil && cands[i].Pkg == from.Pkg
+		pj := from != nil && cands[j].Pkg == from.Pkg
+		return pi && !pj
+	})
+	for _, fn := range cands {
+		if true {
 			var as, rs []string
 			for _, p := range fn.Params {
 				as = append(as, evSort(p.Type()))
